@@ -311,7 +311,17 @@ def check_C07(tier, seed):
 def check_C08(tier, seed):
     em = lambda r: {"policy": r.choice([0, 1, 1, 2]), "stop_at": r.choice([0, 0, r.randrange(50, 4000)]),
                     "period": r.choice([0, 0, 0, 100]), "term": r.choice([0, 0, 5])}
-    return _sys("C08", tier, seed, ["C08"], ["mixed", "sparse", "single", "fanout", "initdone", "nonmono"], 8, 36, 5, 12, em)
+    c = syscamp.Campaign("C08", tier, seed, own_ids=["C08"])
+    try:
+        c.build()
+        c.run(_models(tier, seed, ["mixed", "time0", "sparse", "single", "time0", "fanout", "initdone", "nonmono"], 8, 36), 5 if tier == "quick" else 12, emphasis=em)
+        # predicates that first hold at a timestamp-0 event, one LP per thread (more threads requested than LPs: clamped): a thread whose
+        # accounting goes wrong never votes and the run never ends
+        em0 = lambda r: {"threads": 8, "period": r.choice([0, 0, 50]), "stop_at": 0, "term": 0, "policy": r.choice([0, 1, 2])}
+        c.run(_models(tier, seed + 40, ["time0"], 3, 12), 3 if tier == "quick" else 8, emphasis=em0)
+        return c.finish()
+    finally:
+        c.close()
 
 
 def check_C09(tier, seed):
@@ -683,6 +693,10 @@ def check_C15(tier, seed):
             runs.append({"driver": "mqdrv", "args": (lambda a: (lambda tr: [tr] + a))(a), "spec": "MsgQueueTrace.tla", "cfg": "MsgQueueTrace.cfg",
                          "label": "mq%d" % i, "timeout": 60})
         c.driver_phase(runs)
+        # the queue inside the running system (set-up order of the workers, insertions from LP_INIT handlers into queues of threads that start late,
+        # teardown): every Push / Drain / Extract of a system trace is checked by the C15-labelled checks of TimeWarp.tla
+        em = lambda r: {"threads": r.choice([2, 3, 4, 6]), "switch": r.choice(["1/2", "1/8", "1/24", "1/96", "1/300"]), "policy": r.choice([0, 1, 1, 2])}
+        c.run(_models(tier, seed, ["mixed", "fanout", "ties", "zerodelay"], 4, 16), 4 if tier == "quick" else 10, emphasis=em)
         return c.finish(rule="model checking: every interleaving for 2-3 producers and 4-5 messages with ties; binding: 1..4 real producer threads x 4..12 messages "
                              "each (4 distinct timestamps, cancelled entries) + the consumer mixing extract and time_peek, schedules switching between load and CAS "
                              "(distinct by seed); one validated line per push, swap, extraction, peek; the same Push/Drain/Extract checks run inside every system trace",
